@@ -340,6 +340,12 @@ def find_closures(masked, body_open, body_close):
                 k = pend
                 while masked[k].isspace():
                     k += 1
+                if masked.startswith('->', k):
+                    # `|x: T| -> R { .. }`: the declared return type belongs to the header (a closure with a return type always has a block body)
+                    k2 = masked.find('{', k)
+                    if k2 > 0:
+                        pend = k2
+                        k = k2
                 if masked[k] == '{':
                     e = match_close(masked, k) + 1
                     out.append((i, pend, k, e, True))
